@@ -26,8 +26,11 @@ def scripts(rng, tier, n=None):
             q.mki_size = p.mki_size
             q.keys = [(k_, m[:q.mki_size].ljust(q.mki_size, b"\1")) for k_, m in q.keys]
         L += [q.line(2), "create 3 1 2"]
+        # a session holding a wildcard policy with a SHORT trailer next to the explicit stream: the query must still cover the explicit one
+        wq = default_policy(rng, 0, ssrc_type=SSRC_ANY_OUT, rtp=cp(taglen=4), rtcp=cp(taglen=4))
+        L += [wq.line(3), "create 4 3 1"]
         for mi in range(len(p.keys) if p.use_mki else 1):
-            L += [f"trailer 1 1 {H(mi)}", f"trailer 1 0 {H(mi)}", f"trailer 3 1 {H(mi)}", f"trailer 3 0 {H(mi)}"]
+            L += [f"trailer 1 1 {H(mi)}", f"trailer 1 0 {H(mi)}", f"trailer 3 1 {H(mi)}", f"trailer 3 0 {H(mi)}", f"trailer 4 1 {H(mi)}", f"trailer 4 0 {H(mi)}"]
         seq = 1
         for i in range(3):
             pkt = rand_rtp(rng, ssrc, seq, ids=list(p.enc_xtn) or None)
@@ -59,7 +62,7 @@ def scripts(rng, tier, n=None):
                 for cap in sorted(set([0, len(rp) - 1, len(rp), need])):
                     L.append(pkt_op("unprotect_rtcp", 2, f"@{good:x}", cap=cap, mode=rng.choice([0, 1, 3])))
                     L.append(f"# V {need:x} {p.trailer(False):x} {cap:x} {good:x}")
-        L += ["dealloc 1", "dealloc 2", "dealloc 3"]
+        L += ["dealloc 1", "dealloc 2", "dealloc 3", "dealloc 4"]
         out.append((f"len-{k}", "\n".join(L) + "\n"))
     return out
 
@@ -103,7 +106,7 @@ def monitor(script, c):
                     hits.append({"what": "too-small output buffer not reported as buffer_small", "signature": "small-buffer-status-" + kind,
                                  "detail": f"line {i-1}: status {st}"}); return hits
                 mi = sl[i - 2].split()[2]
-                for sid in ("1", "3"):
+                for sid in ("1", "3", "4"):
                     q = trailers.get((sid, "1" if kind == "P" else "0", mi))
                     if q is not None and st == 0 and ((sid == "1" and q != tr) or q < tr):
                         hits.append({"what": "trailer-length query disagrees with what protect appends", "signature": "trailer-query-" + kind,
